@@ -198,7 +198,7 @@ def run(ctx):
         abnormal_children=fw.histogram(c["dist"].get("abnormal") or "none" for c in cases),
         flaky_on_rerun=flaky + timing_flaky,
         distribution=dict(
-            ops=merge("ops"), op_idkind=merge("op_idkind"),
+            ops=merge("ops"), op_idkind=merge("op_idkind"), status_interval_idkind=merge("status_interval"),
             op_idkind_result=dict(sorted(res_hist.items(), key=lambda kv: -kv[1])[:60]),
             history_len=fw.histogram(c["dist"]["len"] for c in hist),
             pre_images=fw.histogram(x for c in hist for x in (c["dist"]["pre"] or ["none"])),
@@ -215,6 +215,6 @@ def run(ctx):
         "the model's clock is the caller's: images are crafted >= 2 min away from the maxSubmit boundary, real sleeps overshoot it by 400 ms; the exact boundary is proved in the model only",
         "store writes of the engine succeed (a failed write is log.Fatal in sm.Start/End: outside C12's quantifier, which ranges over call orders and ids)",
         "a Wait on a plan the caller did not start (or saw finish) gets a 3 s deadline and counts as blocked when it expires (monitor clause 9, confirmed by 3 re-runs before it is reported)",
-        "vault.Delete is used on plans that are not executing only; Status is used with a positive interval only (interval <= 0 panics in time.NewTicker; DESIGN section 11)",
+        "vault.Delete is used on plans that are not executing only; Status is called with positive, zero, -1 ns and -(1<<62) ns intervals (its results do not depend on the interval; a non-positive one must not panic)",
         "Not covered: recovery-started executions (C11), the cosmosdb vault, interleavings inside store.Read/validateStartState, cancellation of a context that is already dead when the call is made",
     ])
